@@ -89,3 +89,32 @@ pub fn show_bytes(b: &[u8]) -> String {
     }
     s
 }
+
+use crate::refmodel::wire::{self, RFrame};
+use rdest::verif::{Frame, Serializer};
+
+/// rdest Frame -> reference frame, through accessors where the message has them, otherwise by
+/// re-serialising and reading the bytes with the reference decoder.
+pub fn frame_to_r(f: &Frame) -> RFrame {
+    match f {
+        Frame::KeepAlive(_) => RFrame::KeepAlive,
+        Frame::Choke(_) => RFrame::Choke,
+        Frame::Unchoke(_) => RFrame::Unchoke,
+        Frame::Interested(_) => RFrame::Interested,
+        Frame::NotInterested(_) => RFrame::NotInterested,
+        Frame::Have(h) => RFrame::Have(h.piece_index() as u32),
+        Frame::Request(r) => RFrame::Request(r.piece_index() as u32, r.block_begin() as u32, r.block_length() as u32),
+        Frame::Piece(p) => RFrame::Piece(p.piece_index() as u32, p.block_begin() as u32, p.block().clone()),
+        Frame::Bitfield(b) => reparse(&b.data()),
+        Frame::Cancel(c) => reparse(&c.data()),
+        Frame::Handshake(h) => reparse(&h.data()),
+    }
+}
+
+fn reparse(data: &[u8]) -> RFrame {
+    let d = wire::decode(data);
+    match d.frames.first() {
+        Some((f, _)) => f.clone(),
+        None => RFrame::Unknown(255, data.to_vec()),
+    }
+}
